@@ -111,6 +111,9 @@ CHECKS = {
  "C20": ("exploration", "history checker over scheduler-driven interleavings: every read must be a whole-batch prefix state inside its [acknowledged-at-call, begun-at-return] window; writers read their own writes",
          "held on every read of every explored schedule of the run: answers consist of whole batches, equal the writer's state after j operations with acknowledged-at-call <= j <= begun-at-return, and own reads equal the own state",
          "trusted: boundary stamps taken by the reading thread; one writer per relation; seeded random schedules", "3/C20"),
+ "C10": ("exploration", "history checker over concurrent sessions + persistent writer on one Handler: every session answer must be the model answer for some persistent prefix inside its call/return window plus the session's own facts and rules; leak checks afterwards",
+         "held on every query of every history of the run: answers equal the model for an admissible prefix; no session fact/rule of another session is visible; persistent facts and rules are untouched; request-local facts/rules leave nothing behind",
+         "trusted: boundary stamps taken by the session thread; free-running threads with random pauses (handler work runs on tokio's blocking pool, outside the scheduler)", "3/C10"),
 }
 NOT_YET = "monitor not built yet in this round (design in DESIGN.md section 3); not claimed until a check exists"
 
